@@ -18,6 +18,9 @@
    End re-arming the item one period after the start of the run just finished, until a cancel linearizes.
    The guards are the property; NotEarly / CancelledBeforeDueNeverRuns / AtMostOnce restate it over history
    variables and TLC checks the agreement on every interleaving of the generator.
+   Time is an integer in an unspecified unit (the traces use microseconds; the scenario scripts are replayed under two scale
+   profiles, 1 tick = 1 s and 1 tick = 0.4 ms): the guard now >= due[x] is the same for a delay of 400 us as for one of 2 s -
+   no delay is "small enough to count as zero" and no start is "close enough to the due time".
    (ImmediateScheduler - synchronous, WouldBlockException for a positive delay - is ImmediateSched.tla.) *)
 EXTENDS Integers, Sequences, FiniteSets, TLC
 
